@@ -3,7 +3,9 @@ package in_toto
 import (
 	"bytes"
 	"context"
+	"crypto/ed25519"
 	"encoding/base64"
+	"encoding/hex"
 	"encoding/json"
 	"errors"
 	"fmt"
@@ -166,6 +168,18 @@ func (e *Envelope) Dump(path string) error {
 }
 
 func getSignerVerifierFromKey(key Key) (dsse.SignerVerifier, error) {
+	// The signer and verifier implementations trust the key material they are
+	// handed: they use unchecked type assertions on the parsed keys and the
+	// ed25519 primitives panic on keys of the wrong length. Validate first.
+	if err := validateKeyVal(key); err != nil {
+		return nil, err
+	}
+	if key.KeyType == ed25519KeyType {
+		if err := validateEd25519KeyLength(key); err != nil {
+			return nil, err
+		}
+	}
+
 	sslibKey := getSSLibKeyFromKey(key)
 
 	switch sslibKey.KeyType {
@@ -178,6 +192,29 @@ func getSignerVerifierFromKey(key Key) (dsse.SignerVerifier, error) {
 	}
 
 	return nil, ErrUnsupportedKeyType
+}
+
+// validateEd25519KeyLength checks that the hex encoded halves of an ed25519 key
+// have the length the ed25519 primitives require. A private half may consist
+// of the seed only (as written by python-securesystemslib).
+func validateEd25519KeyLength(key Key) error {
+	public, err := hex.DecodeString(key.KeyVal.Public)
+	if err != nil {
+		return fmt.Errorf("%w: %s", ErrInvalidKey, err)
+	}
+	if len(public) != ed25519.PublicKeySize {
+		return fmt.Errorf("%w: ed25519 public key has %d bytes", ErrInvalidKey, len(public))
+	}
+	if key.KeyVal.Private != "" {
+		private, err := hex.DecodeString(key.KeyVal.Private)
+		if err != nil {
+			return fmt.Errorf("%w: %s", ErrInvalidKey, err)
+		}
+		if len(private) != ed25519.PrivateKeySize && len(private) != ed25519.PrivateKeySize/2 {
+			return fmt.Errorf("%w: ed25519 private key has %d bytes", ErrInvalidKey, len(private))
+		}
+	}
+	return nil
 }
 
 func getSSLibKeyFromKey(key Key) signerverifier.SSLibKey {
